@@ -599,6 +599,11 @@ def stream_cmp(rng, tier):
         for b in rels + refs[:8]:
             yield "cmp u ref %s %s" % (hx(a), hx(b))
             yield "cmp i ref %s %s" % (hx(a), hx(b))
+    # every provided cross-type `==` / `partial_cmp` (reference, full, owned, borrowed)
+    for a in refs + rels:
+        for b in refs + rels:
+            yield "cross u %s %s" % (hx(a), hx(b))
+            yield "cross i %s %s" % (hx(a), hx(b))
     n = 3000 if tier == "quick" else 100000
     for _ in range(n):
         f = rng.choice("ui")
@@ -609,6 +614,10 @@ def stream_cmp(rng, tier):
             b = a.replace("/a", "/./a", 1) if rng.random() < 0.5 else a.replace("/a", "/x/../a", 1)
         yield "cmp %s full %s %s" % (f, hx(a), hx(b))
         yield "cmp %s ref %s %s" % (f, hx(a), hx(b))
+        if rng.random() < 0.5:
+            c = rand_ref(rng, f) if rng.random() < 0.5 else b
+            yield "cross %s %s %s" % (f, hx(a), hx(c))
+            yield "cross %s %s %s" % (f, hx(c), hx(a))
     for a in refs + rels:
         yield "hash u ref %s" % hx(a)
         yield "hash i ref %s" % hx(a)
@@ -685,6 +694,7 @@ def stream_suffix(rng, tier):
             yield "suffix i ref %s %s" % (hx(a), hx(b))
             if a.startswith(("s:", "t:")) and b.startswith(("s:", "t:")):
                 yield "suffix u full %s %s" % (hx(a), hx(b))
+                yield "suffix i full %s %s" % (hx(a), hx(b))
     for s in exhaustive("a:/?#.", 5 if tier == "quick" else 6):
         yield "base u ref %s" % hx(s)
         if ":" in s:
@@ -695,6 +705,11 @@ def stream_suffix(rng, tier):
         a = rand_ref(rng, f)
         yield "base %s ref %s" % (f, hx(a))
         yield "suffix %s ref %s %s" % (f, hx(a), hx(rand_ref(rng, f)))
+        fa = rand_ref(rng, f, True)
+        # a prefix of the same value: its base, or the value with its last segments dropped
+        fb = fa.split("?")[0].split("#")[0].rsplit("/", rng.choice([1, 1, 2]))[0] if rng.random() < 0.6 else rand_ref(rng, f, True)
+        yield "suffix %s full %s %s" % (f, hx(fa), hx(fb))
+        yield "base %s full %s" % (f, hx(fa))
         yield "psuffix %s %s %s" % (f, hx(rand_path(rng, f, "any")), hx(rand_path(rng, f, "any", 2)))
 
 
@@ -761,6 +776,24 @@ def stream_routes(rng, tier):
             yield "ctor %s %s" % (kind, hx(mutate(rng, s)))
         for b in BAD_UTF8:
             yield "ctor %s %s" % (kind, hx(b))
+    # comparison with plain text / bytes is comparison of the text (never of decoded or normalised forms)
+    seq = {"uri": ["s:a", "s:%61", "s:a/./b", "S:a"], "uriRef": ["a", "%61", "./a", "a/../a", ""],
+           "uriPath": ["a", "%61", "a/.", "/a", "", "abcdefgh"], "uriAuthority": ["h", "H", "%68", "u@h:1"],
+           "uriUserInfo": ["u", "%75", ""], "uriHost": ["h", "%68", "H"], "uriQuery": ["q", "%71", ""],
+           "uriFragment": ["f", "%66", ""]}
+    for kind, vals in seq.items():
+        for k2 in [kind, "i" + kind[1:]]:
+            vs = vals + (["é", "%C3%A9"] if k2.startswith("i") else [])
+            for a in vs:
+                for b in vs:
+                    yield "streq %s %s %s" % (k2, hx(a), hx(b))
+                yield "streq %s %s %s" % (k2, hx(a), hx(a + "x"))
+                yield "streq %s %s %s" % (k2, hx(a), hx(b"\xff" + a.encode()))
+    for _ in range(n):
+        kind = rng.choice(["uri", "uriRef", "iri", "iriRef", "uriPath", "iriPath"])
+        a = sample_for_kind(rng, kind)
+        b = a if rng.random() < 0.5 else sample_for_kind(rng, kind)
+        yield "streq %s %s %s" % (kind, hx(a), hx(b))
     # conversions from sibling types are routes in too: feed the full types with references
     # (where the reference can be built, converting it must agree with the target's constructor)
     rel = ["?a:b", "#a:b", "foo?k=v:w", "?q#time=12:30", "a/b?c:d", "./a:b", "/a:b", "//h:80/p", "a:b", "a:", ":a",
